@@ -62,7 +62,7 @@ class Run:
     def violation(self, kind, what, detail=None, files=None):
         v = Violation(self.prop, kind, what, detail, files)
         for f in self.findings:
-            if f.get("status") != "open" or f.get("property") != self.prop:
+            if f.get("status") != "open" or self.prop not in (f.get("properties") or [f.get("property")]):
                 continue
             m = f.get("match", {})
             if m.get("kind") and m["kind"] != kind: continue
